@@ -471,7 +471,9 @@ def rom_cmd_value(c):
 THEOREM_FILES = ["cmd_roundtrip", "rom_cmd_decodes", "cmd_stream_roundtrip", "header_roundtrip", "layouts_agree",
                  "counter_agreement", "counter_agreement_aes", "counter_per_block", "hmac_groups_cover", "keyblob_unwraps",
                  "keyblob_unwraps_aes", "rom_section_decodes", "rom21_build", "rom21_build_aes", "rom21_old_builder_sha_refuted",
-                 "sections_all", "coverage21", "spsdk_parse21_build", "spsdk_parse21_build_aes", "parse21_accepts_only_verified"]
+                 "sections_all", "coverage21", "spsdk_parse21_build", "spsdk_parse21_build_aes", "parse21_accepts_only_verified",
+                 "rom20_build", "rom20_build_aes", "spsdk_parse20_build", "spsdk_parse20_build_aes", "counter_agreement20",
+                 "counter_agreement20_aes", "coverage20"]
 
 
 def _run(tier, rep):
@@ -491,12 +493,15 @@ def _run(tier, rep):
     try:
         regen_c04.regen()
         rep.obligation("translate:spsdk/sbfile/sb2/*.py->Gen/GenSb2.v", True)
+        import c04_regen20
+        c04_regen20.regen20()
+        rep.obligation("translate:BootImageV20 / CertSectionV2 constants->Gen/GenSb20.v", True)
     except Exception as ex:  # noqa
         rep.obligation("translate:spsdk/sbfile/sb2/*.py->Gen/GenSb2.v", False, repr(ex))
     # (P) proofs
-    model_ok, mout = vlib.coq_make(["Model/Sb2Model.vo"])
+    model_ok, mout = vlib.coq_make(["Model/Sb2Model.vo", "Model/Sb20Model.vo"])
     theorems = list(THEOREM_FILES)
-    vlib.check_theorems(rep, PID, theorems, ["Proofs/Sb2AesProofs.vo"])
+    vlib.check_theorems(rep, PID, theorems, ["Proofs/Sb2AesProofs.vo", "Proofs/Sb20AesProofs.vo"])
     if thorough:
         vlib.coqchk(rep, PID, theorems)
     vlib.audit(rep)
@@ -907,6 +912,25 @@ def _run(tier, rep):
         n_model = 0
 
     lap("model evaluated")
+    # ------------------------------------------------------------------ Secure Binary 2.0 (BootImageV20)
+    import c04_v20
+
+    def run_runner20(payload):
+        try:
+            r = vlib.run_impl("c04_v20_impl.py", payload, timeout=3000)
+        except Exception as ex:  # noqa
+            raise HarnessProblem(f"SB2.0 implementation runner: {type(ex).__name__}: {str(ex)[-1500:]}")
+        if r.get("harness_error"):
+            raise HarnessProblem(r["harness_error"])
+        return r
+    try:
+        c04_v20.run_v20(rep, rng, thorough, model_ok, run_runner20,
+                        lambda exprs: vlib.run_model_cases("c04v20", "Value Sb2Model Sb20Model", exprs, shard=40, timeout=1500, jobs=8))
+    except HarnessProblem:
+        raise
+    except RuntimeError as ex:
+        rep.obligation("correspondence:SB2.0 model evaluation", False, repr(ex)[-1500:])
+    lap("SB 2.0 stream")
     # ------------------------------------------------------------------ coverage accounting
     nsha = sum(1 for c, b in zip(cases, built) if b["export"][0] == "ok" and c["flags"] & SHA_BIT)
     nmulti = sum(1 for c, b in zip(cases, built) if b["export"][0] == "ok" and len(c["secs"]) > 1)
